@@ -284,7 +284,9 @@ func RecoverFile(path string, o *opt.Options) (db *DB, err error) {
 }
 
 func recoverTable(s *session, o *opt.Options) error {
-	o = dupOptions(o)
+	// Use the session options, tables are keyed by internal keys and so
+	// they need the internal comparer and filter.
+	o = dupOptions(s.o.Options)
 	// Mask StrictReader, lets StrictRecovery doing its job.
 	o.Strict &= ^opt.StrictReader
 
